@@ -321,6 +321,63 @@ def work_zoo_T(chunk, st):
     st.sample({'zoo_T': list(chunk[:2])}, cap=2)
 
 
+def byte_value_tasks():
+    out = []
+    for cat in ('kex', 'key', 'enc', 'mac'):
+        for pos in ('last-byte-of-last-name', 'first-byte-of-first-name', 'inside-middle-name', 'last-byte-of-first-name', 'whole-single-name'):
+            for lo in range(0, 256, 16):
+                out.append((cat, pos, lo, 'server'))
+            if cat in ('kex', 'enc'):
+                for lo in range(0, 256, 32):
+                    out.append((cat, pos, lo, 'client') + ((32,) if True else ()))
+    return out
+
+
+def work_byte_values(chunk, st):
+    """every byte value at the edges and in the middle of a name, at the edges of a list: the JSON report shows the names as sent
+    (independent decode: split at commas, UTF-8 with replacement), whatever the byte is - blank, tab, CR, LF, NUL, '?', '@', 0x80, 0xff ..."""
+    for task in chunk:
+        cat, pos, lo, role = task[:4]
+        span = task[4] if len(task) > 4 else 16
+        for v in range(lo, lo + span):
+            bv = bytes([v])
+            names = [b(x) for x in BASE[cat]] + [b'zz-last@example.org']
+            if pos == 'last-byte-of-last-name':
+                names[-1] = names[-1] + bv
+            elif pos == 'first-byte-of-first-name':
+                names[0] = bv + names[0]
+            elif pos == 'inside-middle-name':
+                names[1] = names[1][:3] + bv + names[1][3:]
+            elif pos == 'last-byte-of-first-name':
+                names[0] = names[0] + bv
+            else:
+                names = [b'n' + bv + b'm' if v not in (0x2c,) else b'n,m']
+            lists = {c: [b(x) for x in BASE[c]] for c in BASE}
+            lists[cat] = names
+            if role == 'server':
+                srv = peer.Server(kex=lists['kex'], key=lists['key'], enc=lists['enc'], mac=lists['mac'])
+                res = H.audit(srv, opts=['-n', '-j', '--skip-rate-test'])
+            else:
+                res = H.client_audit(peer.Client(kex=lists['kex'], key=lists['key'], enc=lists['enc'], mac=lists['mac']), opts=['-n', '-j'])
+            root = ('byte', cat, pos, v, role)
+            st.execution(res.world, outcome=('byte', res.status, pos), root=root, nontrivial=root, detail='light')
+            d = {'category': cat, 'position': pos, 'byte': '0x%02x' % v, 'role': role, 'status': res.status}
+            if res.hang or res.exc or res.status not in (0, 2, 3):
+                st.violation('byte-value:no-report:%s' % pos, dict(d, tail=(res.stdout + res.stderr)[-200:]))
+                continue
+            try:
+                doc = json.loads(res.stdout)
+            except ValueError:
+                st.violation('byte-value:json-unparseable:%s' % pos, dict(d, stdout=res.stdout[:200]))
+                continue
+            want = wire.names_of(wire.namelist_bytes(names))
+            got = [g for g in (report.json_names(doc, cat) or []) if g.strip() != '']
+            if got != want:
+                cls = 'whitespace' if v in (9, 10, 11, 12, 13, 32) else 'control' if v < 32 or v == 127 else 'comma' if v == 0x2c else 'non-ascii' if v >= 128 else 'printable'
+                st.violation('byte-value:json-names-differ:%s:%s' % (pos, cls), dict(d, reported=got, advertised=want))
+    st.sample({'byte_values': list(chunk[0])}, cap=6)
+
+
 def probe_fault_tasks():
     out = []
     for conn in (1, 2, 3, 4):
@@ -399,6 +456,7 @@ def run(tier, seed):
     par.pmap(work_zoo_T, zs[::3], stats=st, chunk=6)
     pf = probe_fault_tasks()
     par.pmap(work_probe_faults, pf, stats=st, chunk=8)
+    par.pmap(work_byte_values, byte_value_tasks(), stats=st, chunk=2)
     validated = H.validate_traces(validation_cases(cs, seed, 40 if tier == 'quick' else 200), st)
     return evidence.finish(
         PID, tier, seed, st, t0,
@@ -406,7 +464,7 @@ def run(tier, seed):
              '"gss-"): all lists of length 0..%d in one category at a time, full cross of all categories at length <=1, asymmetric c2s/s2c, '
              'compression lists x banners; each banner cut into two segments at every offset and delivered byte by byte; x role {server, client} x rendering {plain, batch, verbose, json%s}; every SSH-1 cipher mask and '
              'authentication mask; the same oracle over the %d cooperative peers of props/zoo.py (drawn from every other check) in plain, verbose and JSON; '
-             '%d (probe connection 1..4, connection-level fault, rendering, single/-T) combinations: trouble on a later connection of the audit leaves the reported lists intact; '
+             '%d (probe connection 1..4, connection-level fault, rendering, single/-T) combinations: trouble on a later connection of the audit leaves the reported lists intact; every byte value 0..255 at five positions of a name / list (edges and middle) per category, JSON, server role (kex and enc also client role); '
              'each distinct case is non-trivial' % (2 if tier == 'quick' else 3, '' if tier == 'quick' else ', colour', len(zs), len(pf)),
         assumptions=['expected names = independent decode of the bytes the scripted peer sent (mc/wire.py)',
                      'verbose rendering compared after collapsing adjacent duplicates', 'empty names are not names'],
